@@ -680,34 +680,51 @@ def dump_kwargs(step):
     return kw
 
 
-def open_dump(step, variant=0):
-    """-> (thunk, stream or None)"""
+def new_out(step, variant=0):
+    if step['io'] != 'file':
+        return None
+    return OutStreamNoFlush() if (variant & 8) else OutStream()
+
+
+def dump_call(step, variant=0):
+    """-> (args, call): args = the caller-owned argument objects (values / nodes / events) built once; call(out) returns a
+    thunk that performs the API call with exactly these objects and the given stream (None: the call returns the text)."""
     op, cls, be = step['op'], step['cls'], step['be']
     D = DUMPERS[(cls, be)]
-    out = None
-    if step['io'] == 'file':
-        out = OutStreamNoFlush() if (variant & 8) else OutStream()
     kw = dump_kwargs(step)
     names = step['arg']
     if op == 'emit':
         evs = make_events(names)
-        return (lambda: yaml.emit(evs, out, Dumper=D, **kw)), out
+        return evs, (lambda out: (lambda: yaml.emit(evs, out, Dumper=D, **kw)))
     if op in ('serialize', 'serialize_all'):
         cache = {}          # the same value passed twice = the same node objects passed twice
         ns = [cache.setdefault(n, make_node(n)) if n not in cache else cache[n] for n in names]
         if op == 'serialize':
-            return (lambda: yaml.serialize(ns[0], out, Dumper=D, **kw)), out
-        return (lambda: yaml.serialize_all(ns, out, Dumper=D, **kw)), out
+            return ns, (lambda out: (lambda: yaml.serialize(ns[0], out, Dumper=D, **kw)))
+        return ns, (lambda out: (lambda: yaml.serialize_all(ns, out, Dumper=D, **kw)))
     vcache = {}
     vs = [vcache.setdefault(n, make_value(n)) if n not in vcache else vcache[n] for n in names]
     w = WRAP_DUMP.get((cls, op))
     if w and be == 'py' and (variant & 4):
         if op == 'dump':
-            return (lambda: getattr(yaml, w)(vs[0], out, **kw)), out
-        return (lambda: getattr(yaml, w)(vs, out, **kw)), out
+            return vs, (lambda out: (lambda: getattr(yaml, w)(vs[0], out, **kw)))
+        return vs, (lambda out: (lambda: getattr(yaml, w)(vs, out, **kw)))
     if op == 'dump':
-        return (lambda: yaml.dump(vs[0], out, Dumper=D, **kw)), out
-    return (lambda: yaml.dump_all(vs, out, Dumper=D, **kw)), out
+        return vs, (lambda out: (lambda: yaml.dump(vs[0], out, Dumper=D, **kw)))
+    return vs, (lambda out: (lambda: yaml.dump_all(vs, out, Dumper=D, **kw)))
+
+
+def open_dump(step, variant=0):
+    """-> (thunk, stream or None)"""
+    out = new_out(step, variant)
+    args, call = dump_call(step, variant)
+    return call(out), out
+
+
+def args_digest(args):
+    """Digest of caller-owned argument objects with everything reachable from them, every attribute included (an
+    attribute added to a node or an event is a change)."""
+    return md5(canon(args))
 
 
 IS_LOAD = {'load', 'load_all', 'compose', 'compose_all', 'parse', 'scan'}
